@@ -17,10 +17,15 @@ import (
 	"github.com/idena-network/idena-go/core/appstate"
 	"github.com/idena-network/idena-go/core/flip"
 	"github.com/idena-network/idena-go/core/mempool"
+	"github.com/idena-network/idena-go/core/state"
+	"github.com/idena-network/idena-go/core/state/snapshot"
+	"github.com/idena-network/idena-go/core/upgrade"
 	"github.com/idena-network/idena-go/events"
 	"github.com/idena-network/idena-go/ipfs"
+	"github.com/idena-network/idena-go/keystore"
 	"github.com/idena-network/idena-go/log"
 	"github.com/idena-network/idena-go/pengings"
+	"github.com/idena-network/idena-go/subscriptions"
 	"github.com/idena-network/idena-go/verifhook/vsync"
 	"github.com/libp2p/go-libp2p-core/peer"
 	"github.com/patrickmn/go-cache"
@@ -76,12 +81,12 @@ func (f *verifFeed) ReadMsg() ([]byte, error) {
 	f.next = nil
 	return b, nil
 }
-func (f *verifFeed) ReleaseMsg([]byte)          {}
-func (f *verifFeed) NextMsgLen() (int, error)   { return len(f.next), nil }
-func (f *verifFeed) Read(b []byte) (int, error) { return 0, io.EOF }
+func (f *verifFeed) ReleaseMsg([]byte)           {}
+func (f *verifFeed) NextMsgLen() (int, error)    { return len(f.next), nil }
+func (f *verifFeed) Read(b []byte) (int, error)  { return 0, io.EOF }
 func (f *verifFeed) Write(b []byte) (int, error) { return len(b), nil }
-func (f *verifFeed) WriteMsg(b []byte) error    { return nil }
-func (f *verifFeed) Close() error               { return nil }
+func (f *verifFeed) WriteMsg(b []byte) error     { return nil }
+func (f *verifFeed) Close() error                { return nil }
 
 type verifChecker struct{}
 
@@ -246,3 +251,41 @@ var VerifCodes = map[string]uint64{
 	"FlipKey": FlipKey, "SnapshotManifest": SnapshotManifest, "GetForkBlockRange": GetForkBlockRange, "FlipKeysPackage": FlipKeysPackage,
 	"Push": Push, "Pull": Pull, "Block": Block, "UpdateShardId": UpdateShardId, "BatchPush": BatchPush, "BatchFlipKey": BatchFlipKey, "Disconnect": Disconnect,
 }
+
+// ---- C09 / C11: fast-sync driver
+
+// VerifFastSync wraps the real fastSync: the harness plays the peer (it hands over headers with their
+// certificates and identity diffs), every decision is taken by preConsuming / validateHeader /
+// applyDeferredBlocks as processBatch takes them.
+type VerifFastSync struct{ fs *fastSync }
+
+func VerifNewFastSync(chain *blockchain.Blockchain, appState *appstate.AppState, ipfsProxy ipfs.Proxy, manifest *snapshot.Manifest, bus eventbus.Bus, coinbase common.Address, keyStore *keystore.KeyStore, subManager *subscriptions.Manager, upgrader *upgrade.Upgrader) *VerifFastSync {
+	logger := log.New()
+	h := &IdenaGossipHandler{peers: newPeerSet(), connManager: NewConnManager(nil, config.P2P{}), log: logger}
+	return &VerifFastSync{NewFastSync(h, logger, chain, ipfsProxy, appState, mapset.NewSet(), manifest, nil, bus, coinbase, keyStore, subManager, upgrader)}
+}
+
+func (v *VerifFastSync) PreConsuming(head *types.Header) (uint64, error) {
+	return v.fs.preConsuming(head)
+}
+
+// Feed is one iteration of processBatch's loop for a received header.
+func (v *VerifFastSync) Feed(h *types.Header, cert *types.BlockCert, diff *state.IdentityStateDiff) error {
+	b := &block{Header: h, Cert: cert, IdentityDiff: diff}
+	if err := v.fs.validateHeader(b); err != nil {
+		return err
+	}
+	v.fs.deferredHeaders = append(v.fs.deferredHeaders, blockPeer{*b, peer.ID("verif-peer")})
+	if b.Cert != nil && !b.Cert.Empty() {
+		if _, err := v.fs.applyDeferredBlocks(); err != nil {
+			return err
+		}
+	}
+	return nil
+}
+
+// Deferred returns how many validated headers wait for a certified descendant.
+func (v *VerifFastSync) Deferred() int { return len(v.fs.deferredHeaders) }
+
+// IdentityStateDB is the preliminary identity state the headers were replayed onto.
+func (v *VerifFastSync) IdentityStateDB() *state.IdentityStateDB { return v.fs.identityStateDB }
